@@ -117,6 +117,30 @@ func init() {
 			[]Stmt{tbl("t", col("id", "int(11)"), col("userName", "varchar(64)"))},
 			[]Stmt{tbl("t", col("id", "int(11)"), col("userName", "varchar(64)")), idx("t", "idx_user_name", false, "userName")}})
 	pairWitnesses = append(pairWitnesses,
+		// C01-g: an index on the table created first, declared after the second table
+		witness{"w-index-on-earlier-table-sqlite", lite,
+			[]Stmt{tbl("a", typed("INTEGER", "id", "x")...), tbl("b", typed("INTEGER", "id")...)},
+			[]Stmt{tbl("a", typed("INTEGER", "id", "x")...), tbl("b", typed("INTEGER", "id")...), idx("a", "ia", false, "x")}},
+		witness{"w-index-on-earlier-table-mysql", my,
+			[]Stmt{tbl("a", ints("id", "x")...), tbl("b", ints("id")...)},
+			[]Stmt{tbl("a", ints("id", "x")...), tbl("b", ints("id")...), idx("a", "ia", false, "x")}})
+	for _, cfg := range []runCfg{my, pg} {
+		// C04-g: the bookkeeping table declared first and unchanged; behind it one table altered, one dropped, one created
+		it := map[string]string{"mysql": "int(11)", "postgres": "INT8"}[cfg.dialect]
+		book := tbl("schema_migrations", typed(it, "version", "dirty")...)
+		pairWitnesses = append(pairWitnesses, witness{"w-bookkeeping-table-first-" + cfg.dialect, cfg,
+			[]Stmt{book, tbl("t", typed(it, "a")...), tbl("gone", typed(it, "g")...)},
+			[]Stmt{book, tbl("t", typed(it, "a", "b")...), tbl("fresh", typed(it, "f")...)}})
+	}
+	pairWitnesses = append(pairWitnesses,
+		// a column retyped by ALTER COLUMN … TYPE on the new side only: the diff must carry the new type
+		witness{"w-pg-alter-column-type-new-side", pg,
+			[]Stmt{tbl("t", col("a", "INT8"), col("b", "VARCHAR(64)"))},
+			[]Stmt{tbl("t", col("a", "INT8"), col("b", "VARCHAR(64)")), {Kind: "alterType", T: "t", A: "b", B: "STRING"}}},
+		witness{"w-pg-drop-not-null-new-side", pg,
+			[]Stmt{tbl("t", col("a", "INT8"), col("b", "VARCHAR(64)"))},
+			[]Stmt{tbl("t", col("a", "INT8"), col("b", "VARCHAR(64)")), {Kind: "dropNotNull", T: "t", A: "b"}}})
+	pairWitnesses = append(pairWitnesses,
 		// C09-f: the postgres walker files DROP INDEX under the table created last, leaving a record without columns there;
 		// the other side defines an index of that name on that table
 		witness{"w-pg-columnless-index-redefined", pg,
@@ -194,6 +218,11 @@ var scriptWitnesses = []scriptWitness{
 	// C05-a: a positional ADD COLUMN names its table while the cursor is on another one
 	{"w-position-other-table", my, []Stmt{tbl("t", ints("a", "b")...), tbl("u", ints("x")...), {Kind: "addColumn", T: "t", Col: col("c", "int(11)"), Pos: "after", After: "a"}}},
 	// C05-b: postgres ADD COLUMN on an earlier table, then an index on the table created last
+	// the Postgres spellings of MODIFY COLUMN, one aspect at a time (FX-pg-alter-column-type, FX-pg-drop-not-null)
+	{"w-pg-alter-column-type", pg, []Stmt{tbl("t", col("a", "INT8"), col("b", "VARCHAR(64)")), {Kind: "alterType", T: "t", A: "b", B: "STRING"}}},
+	{"w-pg-alter-column-type-later-call", pg, []Stmt{tbl("t", col("a", "INT8"), col("b", "VARCHAR(64)")), idx("t", "ib", false, "b"), {Kind: "addColumn", T: "t", Col: col("c", "INT4"), Pos: "none"},
+		{Kind: "alterType", T: "t", A: "c", B: "INT8"}, {Kind: "alterType", T: "t", A: "a", B: "INT4"}}},
+	{"w-pg-drop-not-null", pg, []Stmt{tbl("t", col("a", "INT8"), col("b", "VARCHAR(64)")), {Kind: "dropNotNull", T: "t", A: "b"}}},
 	{"w-pg-add-column-then-index", pg, []Stmt{tbl("a", typed("INT8", "id")...), tbl("b", typed("INT8", "id", "k")...), {Kind: "addColumn", T: "a", Col: col("n", "INT8"), Pos: "none"}, idx("b", "idx_b_k", false, "k")}},
 	// C05-c / C09-a / C09-b: two indexes, the first dropped, then the second named again; a column with its own index dropped
 	{"w-drop-first-index-then-rename-second", my, []Stmt{tbl("t", ints("a", "b", "c")...), idx("t", "i1", false, "a"), idx("t", "i2", false, "b"), {Kind: "dropIndex", T: "t", A: "i1"}, {Kind: "renameIndex", T: "t", A: "i2", B: "j2"}}},
